@@ -25,6 +25,8 @@ fixed = [
  ("C11", "db0148c", "twoStepFresnel output point-reflected for every magnification != 1 (off-axis Gaussian beam error 0.99 vs 1e-15 after repair)"),
  ("C10", "fb0ee06", "twoStepFresnel(U, wvl, d, d, numpy.float64(z)) returned NaN (m == 1 relied on ZeroDivisionError)"),
  ("C15", "e34c2d2", "correlation_centroid zero-shift position for odd sizes depended on the padding (4, 4.5, 4 for 9x9 with padding 1, 2, 3)"),
+ ("C13", "3034ab1", "make_kl / gkl_sfi raised IndexError or ValueError for radial samplings such as nr = 19, 31, 33, 38, 49 (rebin returned one sample too many)"),
+ ("C13", "ed33e53", "gkl_basis raised IndexError for nr = 31, 42, 60 (NaN kernel: root of a squared distance rounded to -1e-16)"),
  ("C08", "23b1b66", "structure_function_vk(0, r0, L0) and stf_vonKarman(0, L0) returned NaN instead of 0"),
 ]
 open_ = [
